@@ -35,6 +35,9 @@ def make (c):
     rng  = np.random.default_rng ([c ['seed'], 3, c ['i']])
     spec = gen.fam_ground (rng, seg_hi = 1 / 20.5, shift = bool (rng.random () < 0.5))
     gen.add_sources (rng, spec, nmax = 3)
+    # tapered wires (floor of 8.5 radii): the ground pulse of a wire tapered towards the other end has halves of
+    # the first, not the last, segment
+    gen.taper_some (np.random.default_rng ([c ['seed'], 32, c ['i']]), spec, 0.4, min_radii = 8.5)
     rl = np.random.default_rng ([c ['seed'], 31, c ['i']])
     if rl.random () < 0.25:
         # lossy conductors: the wire and its image carry the same series impedance per length
@@ -47,18 +50,29 @@ def mirrored (spec):
         grounded wire continued through the ground point into its image
     """
     geo = []
+    swap = {1: 2, 2: 1, 3: 3}
+    def w (n, a, b, r, taper, rev):
+        x = gen.wire (n, a, b, r)
+        if taper:
+            # the image of a tapered wire is tapered towards the image of the same end
+            x ['taper'] = [swap [taper [0]] if rev else taper [0]] + list (taper [1:])
+        geo.append (x)
     for g in spec ['geo']:
         p1, p2 = np.array (g ['p1']), np.array (g ['p2'])
+        tp = g.get ('taper')
         if p1 [2] == 0:
             # image part and real part meet in the ground point (a bend unless the wire is vertical)
-            geo.append (gen.wire (g ['n'], p2 * MIR, p1, g ['r']))
-            geo.append (gen.wire (g ['n'], p1, p2, g ['r']))
+            w (g ['n'], p2 * MIR, p1, g ['r'], tp, True)
+            w (g ['n'], p1, p2, g ['r'], tp, False)
         elif p2 [2] == 0:
-            geo.append (gen.wire (g ['n'], p1, p2, g ['r']))
-            geo.append (gen.wire (g ['n'], p2, p1 * MIR, g ['r']))
+            w (g ['n'], p1, p2, g ['r'], tp, False)
+            w (g ['n'], p2, p1 * MIR, g ['r'], tp, True)
         else:
-            geo.append (gen.wire (g ['n'], p1, p2, g ['r']))
-            geo.append (gen.wire (g ['n'], p1 * MIR, p2 * MIR, g ['r']))
+            w (g ['n'], p1, p2, g ['r'], tp, False)
+            w (g ['n'], p1 * MIR, p2 * MIR, g ['r'], tp, False)
+    if any (x.get ('taper') for x in geo):
+        for i, x in enumerate (geo):
+            x ['tag'] = i + 1
     src = []
     for s in spec ['src']:
         at, d, v = np.array (s ['at']), np.array (s ['dir']), s ['v']
@@ -74,7 +88,13 @@ def check (c):
     spec = c if 'geo' in c else make (c)
     MM   = common.repo ()
     mg   = gen.build (spec)
-    ok, why, facts = gen.validity (mg, seg_max = 1 / 10., check_junction_ratio = None)
+    tapered = any (g.get ('taper') for g in spec ['geo'])
+    # (a taper that runs into a junction of three wires with its short end leaves the modelling rules like one
+    # that runs into a junction of two: segment ratio)
+    ok, why, facts = gen.validity (mg, seg_max = 1 / 10., check_junction_ratio = 2.1 if tapered else None)
+    if tapered:
+        why = [w for w in why if w != 'segment < lambda/200']      # short segments are what tapering is for
+        ok  = not why
     if not ok:
         return dict (status = 'discard', reason = 'validity: ' + why [0])
     mf   = gen.build (mirrored (spec))
